@@ -244,14 +244,15 @@ func (s *sshProxyService) Handle(ctx context.Context, conn net.Conn) error {
 		go requestFn(requests, channel2)
 		go requestFn(requests2, channel)
 
-		copyFn := func(dst io.ReadWriteCloser, src io.ReadCloser) {
+		copyFn := func(dst ssh.Channel, src io.ReadCloser) {
 			_, err := io.Copy(dst, src)
 			if err == io.EOF {
 			} else if err != nil {
 				log.Error(err.Error())
 			}
 
-			dst.Close()
+			// end of this direction only: the other direction may still have data to deliver
+			dst.CloseWrite()
 		}
 
 		var wrappedChannel io.ReadCloser = channel
